@@ -80,6 +80,8 @@ def generate(tier, rng):
         final = {0: "any"}          # object -> class of the object it finally resolves to ("any" | "ro")
         links = set()
         L = rng.randrange(8, 26 if tier == "quick" else 41)
+        userclass = rng.random() < 0.3
+        names = NAMES + (["kind", "kind"] if userclass else [])
         for _ in range(L):
             r = rng.random()
             if r < 0.1 and n < 8:
@@ -93,10 +95,12 @@ def generate(tier, rng):
                 n += 1
             elif r < 0.3 and n < 8:
                 t = rng.randrange(n)
-                kw = [[rng.choice(NAMES), _value(rng, ctr)] for _ in range(rng.choice([0, 0, 1, 2]))]
+                kw = [[rng.choice(names), _value(rng, ctr)] for _ in range(rng.choice([0, 0, 1, 2]))]
                 kw = list({k: v for k, v in kw}.items())
                 kw = [[k, v] for k, v in kw]
                 ops.append({"op": "link", "t": t, "kw": kw})
+                if userclass and rng.random() < 0.4:
+                    ops[-1]["cls"] = "user"          # a link of a user subclass that has a class attribute `kind`
                 links.add(n)
                 final[n] = final[t]
                 n += 1
@@ -104,9 +108,9 @@ def generate(tier, rng):
                 # an assignment the target refuses (read-only property): AttributeError, nothing stored anywhere
                 ops.append({"op": "setro", "i": rng.choice([i for i, v in final.items() if v == "ro"]), "v": _value(rng, ctr)})
             elif r < 0.55:
-                ops.append({"op": "set", "i": rng.randrange(n), "k": rng.choice(NAMES), "v": _value(rng, ctr)})
+                ops.append({"op": "set", "i": rng.randrange(n), "k": rng.choice(names), "v": _value(rng, ctr)})
             elif r < 0.8:
-                ops.append({"op": "get", "i": rng.randrange(n), "k": rng.choice(NAMES + ["missing"])})
+                ops.append({"op": "get", "i": rng.randrange(n), "k": rng.choice(names + ["missing"])})
             elif r < 0.9:
                 a = rng.randrange(n)
                 ops.append({"op": "sp", "n": a, "v": rng.choice([None] + list(range(n)))})
@@ -117,7 +121,7 @@ def generate(tier, rng):
             else:
                 ops.append({"op": "dc", "n": rng.randrange(n)})
         for i in range(n):
-            for k in NAMES:
+            for k in dict.fromkeys(names):
                 ops.append({"op": "get", "i": i, "k": k})
         ops.append({"op": "dump"})
         yield {"fam": "symlink", "ops": ops, "userlink": rng.random() < 0.3}
